@@ -749,8 +749,9 @@ fn gen_parsers(
     };
 
     let genned = if let Some(access) = update {
+        // Only what the user provided is an update; defaults must not reset the existing value
         quote_spanned! { field.span()=>
-            if #arg_matches.contains_id(#id) {
+            if #arg_matches.value_source(#id).map(|source| source != clap::parser::ValueSource::DefaultValue).unwrap_or(false) {
                 #access
                 *#field_name = #field_value
             }
